@@ -24,10 +24,10 @@ variable {α : Type} [Add α] [Mul α] [Zero α] [One α] [Max α] [Min α] [Sub
   [LT α] [DecidableLT α] [DecidableEq α]
 
 /-- `conv_threshold` of ValueIteration / SemiAsync / PolicyIteration:
-    `eps * (1 - gamma) / gamma if gamma != 1 else eps`.  At `gamma = 0` the code divides by zero
-    (float `inf`, then `OverflowError` while formatting) — modelled as `none`. -/
+    `eps * (1 - gamma) / gamma if 0 < gamma < 1 else eps` (γ = 1, and γ = 0 where one sweep is exact; before the repair
+    recorded in known_findings.json γ = 0 divided by zero).  Always `some`; the `Option` is kept for the driver interface. -/
 def threshold (γ ε : α) : Option α :=
-  if γ = 1 then some ε else if γ = 0 then none else some (ε * (1 - γ) / γ)
+  if γ = 1 then some ε else if γ = 0 then some ε else some (ε * (1 - γ) / γ)
 
 def convMeasure (t : ConvTest) (new old : List α) : α :=
   match t with
